@@ -1933,6 +1933,13 @@ class Executor:
         if node.orelse:
             self.unsupported(node, "for-else")
         it = self.ev(node.iter, st)
+        big = getattr(self.ctx.current_contract, "summarise_ranges_longer_than", None)
+        if big is not None and isinstance(it, RangeVal) and py_number(it.step) == 1 \
+                and isinstance(py_number(it.lo), int) and isinstance(py_number(it.hi), int) \
+                and py_number(it.hi) - py_number(it.lo) > big:
+            # a long concrete range (the 365 days of a year): summarised like a symbolic one instead of unrolled
+            from .loops import symbolic_for
+            return symbolic_for(self, node, it, st)
         items = self.iter_items(it, st, node)
         if items is not None:
             return self.unroll_for(node, items, st)
